@@ -37,6 +37,9 @@ func supported(ext string) bool {
 type Load struct {
 	Path    string // as opened
 	Parents []int  // indices (into the load list) of the loads of its parent files
+	// Wildcard: reached through a $parent wildcard (removing one of several
+	// matches is a different, legitimate configuration, not a missing layer)
+	Wildcard bool
 }
 
 // ResolveError is an expected resolution failure.
@@ -53,6 +56,7 @@ type Resolver struct {
 	// Ambiguous is set when some layer name is provided by more than one
 	// file (the property excludes such layouts)
 	Ambiguous bool
+	wild      map[string]bool
 }
 
 func ext(p string) string { return strings.TrimPrefix(filepath.Ext(p), ".") }
@@ -147,6 +151,14 @@ func (r *Resolver) parentsOf(path string) ([]string, error) {
 			if len(ms) > 1 && !strings.Contains(n, "*") {
 				r.Ambiguous = true
 			}
+			if strings.Contains(n, "*") {
+				if r.wild == nil {
+					r.wild = map[string]bool{}
+				}
+				for _, m := range ms {
+					r.wild[m] = true
+				}
+			}
 			out = append(out, ms...)
 		}
 		return out, nil
@@ -200,7 +212,7 @@ func (r *Resolver) Chain(path string, loads *[]Load, stack []string) (int, error
 		}
 		idx = append(idx, i)
 	}
-	*loads = append(*loads, Load{Path: path, Parents: idx})
+	*loads = append(*loads, Load{Path: path, Parents: idx, Wildcard: r.wild[path]})
 	return len(*loads) - 1, nil
 }
 
